@@ -187,3 +187,11 @@ impl L1Table {
         self.header_entries
     }
 }
+
+#[cfg(qcow2_rs_verif)]
+impl L1Entry {
+    /// verification hook: build an entry from a raw value without validation
+    pub fn verif_from_raw(v: u64) -> Self {
+        L1Entry(v)
+    }
+}
